@@ -351,6 +351,9 @@ def _t_lattice(ctx, order, reduced):
         k = R.enc_size(ctx.specs[i])
         if k == 1 and not (ctx.specs[i][0] == "choice" and len(ctx.specs[i][1]) == 1):
             per.append([[t] for t in (T_HOT if reduced else T_1D)])
+        elif reduced:
+            vs = [[0.0] * k, [1.0] + [0.0] * (k - 1), [0.0] * (k - 1) + [1.0], [0.5] * k, [1.0] * k]
+            per.append([list(v) for v in R._dedup(tuple(v) for v in vs)])
         else:
             per.append([list(t) for t in itertools.product(T_HOT, repeat=k)])
     for combo in itertools.product(*per):
@@ -483,7 +486,7 @@ def cases_fixed(ctx, reduced):
             hp = ctx.hp(last=(pos, v))
             if isinstance(hp, Exception):
                 continue
-            for t in _t_lattice(ctx, ctx.order(hp), True):
+            for t in _t_lattice(ctx, ctx.order(hp), not single):
                 yield dict(base, what="decode", t=t)
             for p in range(3 if single else 1):
                 yield dict(base, what="sample", pick=p)
